@@ -249,9 +249,9 @@ def WF (env : Env) (c : Ctx) : LEnv → Expr → Prop
       WF env c l lo ∧ WF env c l hi ∧ tyOf c lo = .int ∧ tyOf c hi = .int
   | l, .ofStrAt q qe _ pos =>
       (q = .num → WF env c l qe ∧ tyOf c qe = .int ∧ eval env l qe ≠ .undef) ∧ WF env c l pos ∧ tyOf c pos = .int
-  | _, .pctStr _ _ => False
+  | l, .pctStr p set => WF env c l p ∧ tyOf c p = .int ∧ set ≠ []
   | l, .ofRules q qe _ => (q = .num → WF env c l qe ∧ tyOf c qe = .int ∧ eval env l qe ≠ .undef)
-  | _, .pctRules _ _ => False
+  | l, .pctRules p set => WF env c l p ∧ tyOf c p = .int ∧ set ≠ []
   | l, .forRange q qe lo hi body =>
       (q = .num → WF env c l qe ∧ tyOf c qe = .int ∧ eval env l qe ≠ .undef) ∧
       WF env c l lo ∧ WF env c l hi ∧ tyOf c lo = .int ∧ tyOf c hi = .int ∧ c.vars.length < 4 ∧
@@ -307,7 +307,8 @@ def loopFree : Expr → Bool
   | .ofStrIn q qe _ lo hi => (q != .num || loopFree qe) && loopFree lo && loopFree hi
   | .ofStrAt q qe _ pos => (q != .num || loopFree qe) && loopFree pos
   | .ofRules q qe _ => q != .num || loopFree qe
-  | .pctStr _ _ | .pctRules _ _ | .forRange .. | .forEnum .. | .forOf .. => false
+  | .pctStr p _ | .pctRules p _ => loopFree p
+  | .forRange .. | .forEnum .. | .forOf .. => false
   | _ => true
 
 /-- a rule's condition (`boolean_expression`) -/
